@@ -138,3 +138,87 @@ def rule_freeze(ctx, names=('parser::ExprAST', 'parser::Literal', 'value::Value'
         else:
             obs.append(ok('FREEZE', key, '%s is Freeze (no UnsafeCell anywhere inside): exec(&self) cannot mutate it' % n))
     return obs
+
+
+# ----------------------------------------------------------------------------- UNWIND-PAIR
+AMBIENT_WRITE = re.compile(r'^(std::thread::LocalKey::<T>::(with|set|replace|take|with_borrow_mut|try_with)|'
+                           r'std::thread::LocalKey::<std::cell::(Ref)?Cell<T>>::(set|replace|take|with_borrow_mut|update)|'
+                           r'std::sync::atomic::Atomic\w*(::<\w+>)?::(store|swap|fetch_\w+|compare_exchange\w*)|'
+                           r'core::sync::atomic::Atomic\w*(::<\w+>)?::(store|swap|fetch_\w+|compare_exchange\w*))$')
+
+
+def rule_unwind_pair(ctx, lm, em):
+    """engine state that is changed before a handler can run and put back afterwards must also be put back when the
+    handler panics: if ambient state (thread-local / atomic) is written on a path before a call that can reach a
+    callback and written again after it, the unwind edge of that call must pass a write too (a Drop guard);
+    otherwise every contained handler panic leaves the engine's state changed"""
+    prog = ctx.prog
+    direct = {b.id: [c for c in b.live_calls if AMBIENT_WRITE.match(c.callee or '') or AMBIENT_WRITE.match(c.rdef or '')] for b in prog.bodies}
+    amb = lm._closure(lambda bid: bool(direct.get(bid)))
+    drop_impls = {}
+    for b in prog.bodies:
+        if b.impl_trait in ('std::ops::Drop', 'core::ops::Drop') and b.impl_self:
+            drop_impls[b.impl_self.split('<')[0]] = b
+    obs = []
+    n = 0
+    for bid in sorted(em.reach if em.exec else []):
+        body = prog.by_id[bid]
+        wblocks = set()
+        for c in body.all_calls() if hasattr(body, 'all_calls') else body.live_calls:
+            # a direct write, or a helper that writes and cannot itself reach a handler (guard constructor, counter bump)
+            if AMBIENT_WRITE.match(c.callee or '') or (c.ruid in amb and c.ruid not in lm.can_cb):
+                wblocks.add(c.bb)
+        # drop terminators of guard locals whose Drop impl writes ambient state (normal and cleanup blocks)
+        for bb, blk in enumerate(body.blocks):
+            t = blk['term']
+            if t['k'] == 'drop':
+                ty = (t['pl'].get('ty') or body.locals[t['pl']['l']]['ty']).split('<')[0]
+                d = drop_impls.get(ty)
+                if d is not None and d.id in amb:
+                    wblocks.add(bb)
+        if not wblocks:
+            continue
+        for c in body.live_calls:
+            is_cb = prog.is_callback(c) or (c.ruid in lm.can_cb) or any(tu in lm.can_cb for tu in prog.generic_cb_targets.get((body.id, c.bb), []))
+            if not is_cb or c.bb in wblocks:
+                continue
+            before = [w for w in wblocks if not body.blocks[w]['cleanup'] and c.bb in body.reachable_after(w)]
+            after = [w for w in wblocks if not body.blocks[w]['cleanup'] and c.target is not None and w in body.reachable_from(c.target)]
+            if not before or not after:
+                continue
+            n += 1
+            key = 'UNWIND-PAIR|%s|%s|#%d' % (body.name, (c.rdef or c.callee or 'call'), len([o for o in obs if o.key.startswith('UNWIND-PAIR|%s|' % body.name)]))
+            uw = c.unwind if isinstance(c.unwind, int) else None
+            on_unwind = set()
+            if uw is not None:
+                st, seen = [uw], set()
+                while st:
+                    x = st.pop()
+                    if x in seen:
+                        continue
+                    seen.add(x)
+                    st.extend(body.succ_all(x) if hasattr(body, 'succ_all') else _succ_with_unwind(body, x))
+                on_unwind = seen & wblocks
+            if on_unwind:
+                obs.append(ok('UNWIND-PAIR', key, 'ambient state written before and after this callback-reaching call is also written on its unwind path (guard dropped in cleanup)', c.where()))
+            else:
+                obs.append(bad('UNWIND-PAIR', key, 'ambient state (thread-local / atomic) is written before this call (bb%s) and put back after it (bb%s) only on the normal path: when a handler below the call panics the unwind skips the second write, so every contained panic leaves the engine state changed' % (sorted(before)[0], sorted(after)[0]),
+                               c.where(), body=body.name, bb=c.bb))
+    if n == 0:
+        obs.append(ok('UNWIND-PAIR', 'UNWIND-PAIR|none', 'no evaluator body brackets a callback-reaching call with writes to thread-local / atomic state'))
+    return obs
+
+
+def _succ_with_unwind(body, x):
+    t = body.blocks[x]['term']
+    out = list(body.succ[x]) if x < len(body.succ) else []
+    if isinstance(t.get('unwind'), int):
+        out.append(t['unwind'])
+    k = t['k']
+    if k == 'goto':
+        out.append(t['target'])
+    elif k in ('drop', 'assert') or (k == 'call' and t.get('target') is not None):
+        out.append(t['target'])
+    elif k == 'switch':
+        out += [tb for _, tb in t['targets']] + [t['otherwise']]
+    return out
